@@ -8,7 +8,7 @@ UNITS = _families.with_families('C11', UNITS)
 BOUNDED = [
     {'name': 'C11.resync', 'script': 'bounded/c11_resync.py', 'timeout': 600,
      'bound': 'statistical: 16 (thorough: 300) seeded high-entropy streams of 24-64 KiB, min=64, max=1024, one aligned insert/delete/overwrite each; '
-              're-synchronisation demanded within 8*max after the edit; two random keys must differ; shared-suffix streams compared from the first common boundary; repository level with three files: one byte appended to an earlier file (sizes around 1 MiB / 2 MiB, not multiples of 4) must leave the chunks of the unchanged 3 MiB file alone'},
+              're-synchronisation demanded within 8*max after the edit; two random keys must differ; shared-suffix streams compared from the first common boundary; repository level with three files: one byte appended to an earlier file (sizes around 1 MiB / 2 MiB, not multiples of 4) must leave the chunks of the unchanged 3 MiB file alone; 2300 small files: a one-byte file added at the front of the stream must not re-chunk files beyond stream rank 200'},
 ]
 TRUSTED = ['vf symbolic executor + cvc front end', 'z3 5.1, cvc5 1.0.3']
 ASSUMPTIONS = [
